@@ -627,6 +627,12 @@ def check_instance(fx, R, cq, cname):
                     R.undecided('L7', pinst, 'result not readable as a matrix')
                     all_ok = False
                     continue
+                if any(x.has(sp.nan) or x.has(sp.zoo) for x in got):
+                    all_ok = False
+                    R.violated('L7', '%s::%s:%s' % (cname, name, 'stored-inverse:not-a-number' if what.startswith('inverseJtJ_') else 'not-a-number'),
+                               'on the instance (%s: J has full column rank, so the minimiser exists and is %s) %s()%s yields NaN entries instead' % (
+                                   tag, what, name, ' on the path [%s], which this instance takes' % desc if desc else ''), fx.rel(f['loc']), 'E-ALG')
+                    continue
                 if lsmodel.same_matrix(got, expected):
                     R.holds('L7', pinst, 'exactly %s' % what, fx.rel(f['loc']), 'E-ALG')
                     continue
